@@ -43,6 +43,7 @@ type nondetRec struct {
 	Kind  string // u8,u16,u32,u64,int,bool,bytes
 	Terms []*Term
 	Len   *Term
+	LO    *Obj // length-only input buffer: bytes read at constant offsets
 }
 
 type Violation struct {
@@ -1044,6 +1045,21 @@ func (in *Interp) vector(m Model) []map[string]interface{} {
 			bs := make([]int, len(nd.Terms))
 			for i, t := range nd.Terms {
 				bs[i] = int(ev(t))
+			}
+			if nd.LO != nil && len(nd.LO.loCells) > 0 {
+				// sparse contents of a length-only buffer: the cells the code actually read
+				hi := uint64(0)
+				for k := range nd.LO.loCells {
+					if k > hi {
+						hi = k
+					}
+				}
+				if hi < 1<<16 {
+					bs = make([]int, hi+1)
+					for k, t := range nd.LO.loCells {
+						bs[k] = int(ev(t))
+					}
+				}
 			}
 			r["len"] = l
 			r["bytes"] = bs
